@@ -29,6 +29,8 @@ pub fn register(reg: &mut Reg) {
     ep!(reg, "f_clamped".to_string(), 3, |a| { Out::of(vec![a[0].clamped(a[1], a[2])]) });
     ep!(reg, "f_clamp".to_string(), 3, |a| { Out::of(vec![<T as Clamp>::clamp(a[0], a[1], a[2])]) });
     ep!(reg, "f_clamped_range".to_string(), 3, |a| { Out::of(vec![a[0].clamped_to_inclusive_range(a[1]..=a[2])]) });
+    ep!(reg, "f_clamp_range".to_string(), 3, |a| { Out::of(vec![<T as Clamp>::clamp_to_inclusive_range(a[0], a[1]..=a[2])]) });
+    ep!(reg, "f_clamp_minus1_1".to_string(), 1, |a| { Out::of(vec![<T as Clamp>::clamp_minus1_1(a[0])]) });
     ep!(reg, "f_clamped01".to_string(), 1, |a| { Out::of(vec![a[0].clamped01()]) });
     ep!(reg, "f_clamp01".to_string(), 1, |a| { Out::of(vec![<T as Clamp>::clamp01(a[0])]) });
     ep!(reg, "f_clamped_minus1_1".to_string(), 1, |a| { Out::of(vec![a[0].clamped_minus1_1()]) });
